@@ -289,6 +289,20 @@ class C06(object):
                 r.oracle_fail = 'Chernoff information %r, definition gives %r' % (ci, refci)
         elif not (ci >= refci - 1e-4 * max(1.0, refci) and ci <= refci + 1e-3):
             r.oracle_fail = 'Chernoff information %r, definition (grid minimum) about %r' % (ci, refci)
+        # the model's objective (Core/Diverge2.lean `chernoffObj`, NumPy's power conventions) on the same grid; by
+        # `chernoffObj_nonpos` the true value is >= 0 and >= -objective(alpha) for every alpha in [0,1]
+        if not r.oracle_fail:
+            mv = [bits2f(v) for v in drv.call('chernf', [[[f2bits(p), f2bits(qq)] for p, qq in fl(pu)], [f2bits(a_) for a_ in grid]])]
+            # pointwise on the open interval (at alpha = 0 and 1 NumPy's x**0 = 1 also counts outcomes outside the
+            # other support, so the objective jumps to 0 there when the supports differ - the model has the same jump)
+            for al, v_def, v_mod in list(zip(grid, vals, mv))[1:-1]:
+                o_def = math.log2(v_def) if v_def > 0 else -math.inf
+                if math.isinf(o_def) != math.isinf(v_mod) or (not math.isinf(o_def) and abs(o_def - v_mod) > 1e-9):
+                    r.mismatch = 'Chernoff objective at alpha = %r: definition %r, model %r' % (al, o_def, v_mod)
+                    break
+            mref = -min(mv[1:-1])
+            if not r.mismatch and not math.isinf(ci) and not math.isinf(mref) and ci < mref - 1e-4 * max(1.0, mref):
+                r.mismatch = 'Chernoff information %r is below -objective(alpha) = %r of the model at a grid point' % (ci, mref)
 
     def run_emd(self, case, drv, r):
         from dit.divergences import earth_movers_distance, variational_distance
@@ -505,6 +519,12 @@ class C06(object):
         val = float(lautum_information(da, rvs, crvs))
         if not self.agree(val, ref, 1e-8):
             r.oracle_fail = 'lautum information %r, definition D(p(x|z)p(y|z)p(z) || p(x,y,z)) gives %r' % (val, ref)
+        elif not Z and all(Fraction(p) == 0 or Fraction(p) > Fraction(1, 10 ** 4) for p in ta.values()):
+            # correspondence with Core/Diverge2.lean `lautumVals` (unconditional form; no entries near the null tolerance)
+            mo = drv.call('lautumf', [[[list(o), f2bits(float(p))] for o, p in ta.items() if p > 0], X, Y])
+            mval = math.inf if mo == 'inf' else bits2f(mo)
+            if not self.agree(val, mval, 1e-8):
+                r.mismatch = 'lautum information %r, model %r' % (val, mval)
 
 
 PROP = C06()
